@@ -92,6 +92,7 @@ pub struct Counters {
     pub p_multibyte_match: u64,
     pub p_inspect: u64,
     pub p_match_beyond_64k: u64,
+    pub p_nine_or_more_blocks: u64,
 }
 
 impl Counters {
@@ -102,7 +103,7 @@ impl Counters {
             f_truncate_after_match, f_truncate_inside_occurrence, f_split_inside_char,
             f_split_inside_occurrence, f_cancel, f_producer_ahead, f_hint_truthful_nonzero,
             p_match_midstream, p_interleaved_handles, p_multi_block, p_block_evicted,
-            p_same_end_multi, p_multibyte_match, p_inspect, p_match_beyond_64k
+            p_same_end_multi, p_multibyte_match, p_inspect, p_match_beyond_64k, p_nine_or_more_blocks
         );
     }
 }
@@ -327,6 +328,9 @@ pub fn run(sc: &Scenario) -> Outcome {
             let blocks = (image_len / 12) / 256;
             if blocks >= 2 {
                 w.c.p_multi_block += 1;
+            }
+            if blocks >= 9 {
+                w.c.p_nine_or_more_blocks += 1;
             }
             if blocks > sc.spec.num_free_blocks as usize {
                 w.c.p_block_evicted += 1;
